@@ -52,7 +52,7 @@ ASSUMPTIONS = [
   "the sweep axis is the literal in collision_driver.sap_broadphase (parsed from its source, else (0.5935,0.7790,0.1235)); it only steers the sapband poses and the coverage counters, never a verdict",
   "per-world rows of batched Model fields are written into the Model returned by put_model (world w reads row w % 2); each row is a model compiled by MuJoCo, so rbound/aabb are MuJoCo's own",
 ]
-BUDGET = {"quick": 400, "thorough": 2400}
+BUDGET = {"quick": 600, "thorough": 2400}
 
 FIELDS = ("geom", "dist", "pos", "frame", "includemargin", "friction", "solref", "solreffriction", "solimp", "dim", "type")
 BITS = {1: "PLANE", 2: "SPHERE", 4: "AABB", 8: "OBB"}
